@@ -540,7 +540,10 @@ func program(c Case) (src string, warm string) {
 		// routines ask again for synchronization before every access, as a
 		// defensive helper would: asking again must not disturb routines that
 		// are inside an access; each routine owns one slot
-		flavor := c.Salt/len(kinds)%2 == 1
+		flavor := c.Salt/len(kinds)%3 == 1
+		// third shape: the synchronized instance is given another class (change-class)
+		// before the routines start; it stays synchronized without being asked again
+		changed := c.Salt/len(kinds)%3 == 2
 		if flavor {
 			fmt.Fprintf(&b, "(defflavor %s-rf (", u)
 			for k := 0; k < c.N; k++ {
@@ -554,9 +557,23 @@ func program(c Case) (src string, warm string) {
 				fmt.Fprintf(&b, " (s%d :initform 0)", k)
 			}
 			b.WriteString("))\n")
+			if changed {
+				fmt.Fprintf(&b, "(defclass %s-rd () ((extra :initform 7)", u)
+				for k := 0; k < c.N; k++ {
+					fmt.Fprintf(&b, " (s%d :initform 0)", k)
+				}
+				b.WriteString("))\n")
+			}
 			fmt.Fprintf(&b, "(let* ((done (make-channel %d)) (inst (make-instance '%s-rc)))\n (set-synchronized inst t)\n", c.N+1, u)
+			if changed {
+				fmt.Fprintf(&b, " (change-class inst '%s-rd)\n", u)
+			}
 		}
 		for k := 0; k < c.N; k++ {
+			if changed {
+				fmt.Fprintf(&b, " (run (progn (dotimes (i %d) (setf (slot-value inst 's%d) (1+ (slot-value inst 's%d)))) (channel-push done (synchronizedp inst))))\n", c.M, k, k)
+				continue
+			}
 			if flavor {
 				fmt.Fprintf(&b, " (run (progn (dotimes (i %d) (set-synchronized inst t) (send inst :set-s%d (1+ (send inst :s%d)))) (channel-push done (synchronizedp inst))))\n", c.M, k, k)
 			} else {
@@ -891,7 +908,7 @@ func exec(x *fw.Ctx, c Case) {
 			return
 		}
 		if v[0] != 1 {
-			x.Fail(sig("not-synchronized"), "%s: synchronizedp gave nil for an instance every routine had just asked to be synchronized", cfg)
+			x.Fail(sig("not-synchronized"), "%s: synchronizedp gave nil for an instance that was made synchronized (asked again by every routine, or given another class with change-class before the routines started)", cfg)
 		}
 		for k := 0; k < c.N; k++ {
 			if v[1+k] != int64(c.M) {
